@@ -2,5 +2,5 @@ From Coq Require Import ExtrOcamlBasic.
 From WacV Require Import Str FsResolve FsSpec.
 Extraction Language OCaml.
 Extraction "../build/c18/model.ml"
-  N.of_nat N.compare resolve_one resolve_one_fixed spec fs_of_list suffixed_dir_chosen key_wfb base suffixed applicable_override
+  N.of_nat N.compare resolve_one resolve_one_fixed resolve_all is_failure spec fs_of_list suffixed_dir_chosen key_wfb base suffixed applicable_override
   s_wasm s_wat s_wit.
